@@ -37,6 +37,8 @@ const (
 	c12MagicPing      = 0x4d082b9a
 	c12MagicPong      = 0xdc69fb03
 	c12MagicAuthNonce = 0xe35d4ab6
+	c12MagicAuth      = 0x445bab12
+	c12MagicPubKey    = 0x4813b4c6
 )
 
 var c12QuietOnce sync.Once
@@ -69,6 +71,12 @@ type c12Server struct {
 	pings    atomic.Int64
 	pongAt   []time.Time // when a pong was written (under mu)
 	pingAt   []time.Time // when a ping arrived (under mu)
+	// authentication (tcp.authentificate -> nonce -> complete) and the latest query
+	auths   atomic.Int64 // completions with a valid signature
+	badAuth atomic.Int64
+	nq      int      // queries received (under mu)
+	last    c12Query // the latest one (under mu)
+	lastRaw []byte
 }
 
 type c12Ln struct {
@@ -192,6 +200,7 @@ func (l *c12Ln) serve(c net.Conn) {
 	l.upAt = append(l.upAt, time.Now())
 	l.mu.Unlock()
 	rd := bufio.NewReader(c)
+	var clientNonce, serverNonce []byte
 	for {
 		p, err := liteclient.ParsePacket(rd, rx)
 		if err != nil {
@@ -206,10 +215,31 @@ func (l *c12Ln) serve(c net.Conn) {
 			copy(q.id[:], p.Payload[4:36])
 			q.k = l.k
 			data := c12DecodeBytes(p.Payload[36:])
+			s.mu.Lock()
 			if len(data) >= 16 {
-				s.mu.Lock()
 				s.q[string(data[:16])] = q
-				s.mu.Unlock()
+			}
+			s.nq++
+			s.last, s.lastRaw = q, data
+			s.mu.Unlock()
+		case c12MagicAuth:
+			clientNonce = append([]byte{}, c12DecodeBytes(p.Payload[4:])...)
+			serverNonce = make([]byte, 32)
+			rand.Read(serverNonce)
+			b := make([]byte, 4, 40)
+			binary.LittleEndian.PutUint32(b, c12MagicAuthNonce)
+			b = append(b, c12EncLen(len(serverNonce))...)
+			fc.send(c12Align(append(b, serverNonce...)))
+		case c12MagicPubKey:
+			// sendAuthComplete writes the pub.ed25519 magic over the tcp.authentificationComplete one
+			if len(p.Payload) >= 37 && serverNonce != nil {
+				key := ed25519.PublicKey(p.Payload[4:36])
+				sig := c12DecodeBytes(p.Payload[36:])
+				if len(sig) == ed25519.SignatureSize && ed25519.Verify(key, append(append([]byte{}, clientNonce...), serverNonce...), sig) {
+					s.auths.Add(1)
+				} else {
+					s.badAuth.Add(1)
+				}
 			}
 		case c12MagicPing:
 			s.pings.Add(1)
@@ -478,6 +508,19 @@ type c12Call struct {
 	res   []byte
 	err   error
 	dur   time.Duration
+	// the caller's context: 0 Background, 1 deadline far later than the client
+	// timeout, 2 deadline at a third of it, 3 cancel-only
+	ctxMode   int
+	cancel    context.CancelFunc
+	cancelled time.Time
+}
+
+// deadline that applies to the call: the earlier of client timeout and caller deadline
+func (c *c12Call) deff(D time.Duration) time.Duration {
+	if c.ctxMode == 2 {
+		return D / 3
+	}
+	return D
 }
 
 func (e *c12Env) callKey(i int) []byte {
@@ -489,18 +532,32 @@ func (e *c12Env) callKey(i int) []byte {
 
 // startCall issues Client.Request in its own goroutine; pad > 0 makes the
 // request longer (length prefix forms 1 and 4 bytes)
-func (e *c12Env) startCall(i, pad int) *c12Call {
-	c := &c12Call{i: i, key: e.callKey(i), done: make(chan struct{})}
+func (e *c12Env) startCall(i, pad int) *c12Call { return e.startCallCtx(i, pad, 0) }
+
+func (e *c12Env) startCallCtx(i, pad, mode int) *c12Call {
+	c := &c12Call{i: i, key: e.callKey(i), done: make(chan struct{}), ctxMode: mode}
 	q := append(append([]byte{}, c.key...), make([]byte, pad)...)
+	ctx := context.Background()
+	switch mode {
+	case 1:
+		ctx, c.cancel = context.WithTimeout(ctx, time.Hour)
+	case 2:
+		ctx, c.cancel = context.WithTimeout(ctx, e.D/3)
+	case 3:
+		ctx, c.cancel = context.WithCancel(ctx)
+	}
 	c.start = time.Now()
 	go func() {
+		if c.cancel != nil {
+			defer c.cancel()
+		}
 		defer close(c.done)
 		defer func() {
 			if r := recover(); r != nil {
 				c.err = fmt.Errorf("panic: %v", r)
 			}
 		}()
-		c.res, c.err = e.cl.Request(context.Background(), q)
+		c.res, c.err = e.cl.Request(ctx, q)
 		c.dur = time.Since(c.start)
 	}()
 	return c
@@ -577,6 +634,21 @@ func c12Outcome(c *c12Call, datum map[string]uint64) sx.V {
 	return sx.L(sx.A("other"), sx.Str(c.err.Error()))
 }
 
+// for calls under a caller context: which deadline ended the unanswered call
+func c12OutcomeCtx(c *c12Call, datum map[string]uint64, D time.Duration) sx.V {
+	o := c12Outcome(c, datum)
+	if c == nil || c.ctxMode == 0 || !o.IsA("expired") {
+		return o
+	}
+	switch {
+	case !c.cancelled.IsZero():
+		return sx.L(sx.A("expired"), sx.A("cancelled"))
+	case c.dur < 2*D/3:
+		return sx.L(sx.A("expired"), sx.A("caller"))
+	}
+	return sx.L(sx.A("expired"), sx.A("client"))
+}
+
 // runC12Script: (nconn ncalls (op ...)); consecutive 'start ops are issued concurrently.
 func runC12Script(in sx.V, D time.Duration) (r c12ScriptRes) {
 	bad := func(what string) c12ScriptRes {
@@ -605,11 +677,16 @@ func runC12Script(in sx.V, D time.Duration) (r c12ScriptRes) {
 		o := ops[p]
 		a := o.List[1:]
 		switch o.Head() {
-		case "start":
+		case "start", "startctx":
 			// the maximal run of start ops is one concurrent batch
 			var batch []int
-			for p < len(ops) && ops[p].Head() == "start" {
-				batch = append(batch, ops[p].List[1].I())
+			mode := map[int]int{}
+			for p < len(ops) && (ops[p].Head() == "start" || ops[p].Head() == "startctx") {
+				i := ops[p].List[1].I()
+				batch = append(batch, i)
+				if ops[p].Head() == "startctx" {
+					mode[i] = ops[p].List[2].I()
+				}
 				p++
 			}
 			p--
@@ -618,7 +695,7 @@ func runC12Script(in sx.V, D time.Duration) (r c12ScriptRes) {
 				if i%7 == 3 {
 					pad = 300
 				}
-				calls[i] = e.startCall(i, pad)
+				calls[i] = e.startCallCtx(i, pad, mode[i])
 			}
 			for _, i := range batch {
 				c := calls[i]
@@ -699,6 +776,20 @@ func runC12Script(in sx.V, D time.Duration) (r c12ScriptRes) {
 			dropped[a[0].I()] = true
 		case "reg":
 			regs = append(regs, sx.Nat(e.cl.VerifRegistrySize()))
+		case "cancel": // the caller cancels the context of a waiting, unanswered call
+			c := calls[a[0].I()]
+			if c == nil || c.cancel == nil {
+				return bad("cancel of a call without a cancellable context")
+			}
+			if c.returned() {
+				r.slow = true // its deadline came first: the machine is too slow for this script
+				break
+			}
+			c.cancelled = time.Now()
+			c.cancel()
+			if !c.wait(2 * time.Second) {
+				fail("cancel-ignored", fmt.Sprintf("call %d has not returned 2 s after its context was cancelled", a[0].I()))
+			}
 		case "finish":
 			for i, c := range calls {
 				if c != nil {
@@ -707,9 +798,9 @@ func runC12Script(in sx.V, D time.Duration) (r c12ScriptRes) {
 				if c == nil || c.returned() {
 					continue
 				}
-				left := time.Until(c.start.Add(D + c12Hang))
+				left := time.Until(c.start.Add(c.deff(D) + c12Hang))
 				if !c.wait(left) {
-					fail("call-hangs", fmt.Sprintf("call %d has not returned %v after its deadline of %v", i, c12Hang, D))
+					fail("call-hangs", fmt.Sprintf("call %d (caller context %d) has not returned %v after its deadline of %v", i, c.ctxMode, c12Hang, c.deff(D)))
 				}
 			}
 		default:
@@ -719,10 +810,14 @@ func runC12Script(in sx.V, D time.Duration) (r c12ScriptRes) {
 	// property oracle, stated directly
 	outs := make([]sx.V, ncalls)
 	for i, c := range calls {
-		outs[i] = c12Outcome(c, datum)
+		outs[i] = c12OutcomeCtx(c, datum, D)
 		if c == nil || !c.returned() {
 			continue
 		}
+		if c.ctxMode == 2 && c.class() == c12Timeout && c.dur >= 2*D/3 {
+			r.slow = true // the caller's short deadline was noticed too late to tell it from the client timeout
+		}
+		D := c.deff(D)
 		switch c.class() {
 		case c12Ok:
 			d, known := datum[string(c.res)]
@@ -732,7 +827,7 @@ func runC12Script(in sx.V, D time.Duration) (r c12ScriptRes) {
 				fail("foreign-answer", fmt.Sprintf("call %d returned the answer addressed to call %d", i, foreign[d]))
 			}
 		case c12Timeout:
-			if c.dur < D-5*time.Millisecond {
+			if c.dur < D-5*time.Millisecond && c.cancelled.IsZero() {
 				fail("early-timeout", fmt.Sprintf("call %d returned a timeout after %v, deadline %v", i, c.dur, D))
 			}
 		case c12Other:
